@@ -53,10 +53,11 @@ pub const fn entry_size(key_size: u8) -> usize {
 impl PatchIndexEntry {
     /// Parse a single entry from a byte slice
     ///
-    /// Returns the entry and the number of bytes consumed.
+    /// Returns `None` if `key_size` is larger than the 16-byte key fields or
+    /// `data` is shorter than one entry.
     pub fn parse(data: &[u8], key_size: u8) -> Option<Self> {
         let size = entry_size(key_size);
-        if data.len() < size {
+        if key_size > 16 || data.len() < size {
             return None;
         }
 
